@@ -17,6 +17,7 @@ IntSeq = z3.SeqSort(z3.IntSort())
 #   'int' 'bool' 'bytes'            scalar / byte string (Seq Int, elements 0..255)
 #   ('seq', k)                      immutable sequence of elements of kind k
 #   ('opq', tag)                    opaque object identity (an Int id)
+#   ('rec', model name)             reference to a record of the symbolic map (MapOf) of that model (the key)
 #   ('tup', (k1,..,kn))             tuple sort (only as element of a seq)
 # ---------------------------------------------------------------------------
 
@@ -47,7 +48,7 @@ def sort_of(kind):
     if isinstance(kind, tuple):
         if kind[0] == 'seq':
             return z3.SeqSort(sort_of(kind[1]))
-        if kind[0] == 'opq':
+        if kind[0] in ('opq', 'rec'):
             return z3.IntSort()
         if kind[0] == 'tup':
             if kind not in _tuple_sorts:
@@ -72,6 +73,8 @@ def _kname(k):
         return 'S' + _kname(k[1])
     if k[0] == 'opq':
         return 'O' + str(k[1])
+    if k[0] == 'rec':
+        return 'R' + str(k[1]).replace(':', '_').replace('.', '_')
     if k[0] == 'tup':
         return 'T' + ''.join(_kname(x) for x in k[1]) + 'E'
     return str(k)
@@ -153,13 +156,14 @@ class LObj(HObj):
     symbolic sequence `sym` (Sym of kind ('seq', k)).  For a deque, index 0 is
     the *left* end."""
 
-    def __init__(self, items=None, sym=None, flavor='list'):
+    def __init__(self, items=None, sym=None, flavor='list', maxlen=None):
         self.items = items
         self.sym = sym
         self.flavor = flavor
+        self.maxlen = maxlen  # deque(maxlen=n) or None
 
     def clone(self):
-        return LObj(list(self.items) if self.items is not None else None, self.sym, self.flavor)
+        return LObj(list(self.items) if self.items is not None else None, self.sym, self.flavor, self.maxlen)
 
     def __repr__(self):
         return f'LObj<{self.flavor}>({self.items if self.items is not None else self.sym})'
